@@ -87,6 +87,32 @@ PROPS = {
                      'print through the Zinc encoder (decided in u_enc); operator spelling clauses of Lexer::read. The printer contract pins one legal spelling '
                      '(e.g. "( a )"): when it fails and the enumerator finds no filter for which print-then-parse fails, the outcome is undecided (exit 2), not a violation.'),
     ),
+    'C20': dict(
+        title='Display names follow the documented precedence and macro substitution',
+        verus=[('u_dis', [r'^dict_to_dis$', r'^decode_str_from_value$', r'^DisReplacer::replace_append$', r'^first_dis_tag$', r'^dec_text$', r'^macro_text$'])],
+        kani=[],
+        witness='enum:dis',
+        design_ref='DESIGN.md section 4, C20',
+        level_text=('Proof (Verus, every record, every localisation function, every default) on the real body of dict_to_dis: the display string is '
+                    'taken from the first of dis, disMacro, disKey, name, def, tag, navName, id that the record has (first_dis_tag, written from the '
+                    'documented order), else the default: a Str tag contributes its characters and any other value its display text '
+                    '(decode_str_from_value, also proved on its real body); disKey is looked up with the localisation function given and used '
+                    'verbatim when there is no localisation; an id that is a Ref contributes its display name, or its id when it has none; a '
+                    'disMacro that is a Str goes to the substitution engine, any other disMacro value is displayed as such. '
+                    'Substitution of one match (Verus, real body of DisReplacer::replace_append, the regex captures seen through the text of each '
+                    'group): $tag / ${tag} is replaced by the tag value\'s text (a Ref its display name or id, a Str its characters, anything else '
+                    'its Zinc text) when the lookup finds the tag, $<key> by its localisation when there is one, and the whole match is copied '
+                    'verbatim otherwise; nothing else is appended. The closure `.map(Cow::Borrowed)` is eta-expanded by rule R26 and the local '
+                    'closure default_replace is inlined by rule R27 (this Verus has neither constructors as function values nor closures that '
+                    'mutate what they capture).'),
+        not_decided=('which substrings of a pattern are matches (the regular expression and regex::Regex::replace_all are trusted: '
+                     'text outside matches is copied, each match is handed to the replacer once, left to right) -- hence "text without a $ is returned '
+                     'unchanged" and "substitution never panics" rest on the bounded enumerator enum:dis (768 records: every subset of the eight '
+                     'display tags x Str / non-Str / Ref values against an oracle written from the precedence order, and 32 patterns incl. one-letter '
+                     'tags, braces, localisation keys, unterminated and non-ASCII forms against the macro rules); Cow<str> is seen through the text it holds; '
+                     'Dict::get is BTreeMap lookup.'),
+        technique='contract-based deductive verification: Verus postconditions on the real bodies of dict_to_dis and the macro replacer',
+    ),
     'C19': dict(
         title='Kinds, typed accessors and grid construction are coherent',
         verus=[('u_kinds', [r'^Value::is_', r'^Value::has_value$', r'^kind_from_value$', r'^try_from_value_for_', r'^lemma_exactly_one_kind$',
